@@ -39,9 +39,24 @@ class Cur(object):
         return self.i >= len(self.log)
 
 
+class DirectPop(tuple):
+    """population of a direct categorical draw (random.choices); .direct maps candidate -> probability the draw gave it"""
+    direct = None
+
+
 def parse_choose(cur, weighted):
     """returns (population, proposals[(candidate, thr, accepted, logpos_choice, logpos_cmp)], chosen)"""
     props = []
+    e0 = cur.peek()
+    if e0 is not None and e0[0] == 'choices':
+        p0 = cur.pos()
+        cur.next('choices')
+        pop = DirectPop(e0[1])
+        pop.direct = {}
+        for x, p in zip(e0[1], e0[2]):
+            pop.direct[x] = pop.direct.get(x, 0.0) + p
+        c = e0[1][e0[3]]
+        return pop, [(c, None, True, p0, None)], c
     while True:
         p0 = cur.pos()
         if props and not cur.done() and cur.peek()[0] != 'choice':
@@ -82,6 +97,17 @@ def check_selection(pop, props, expected, weighted, fails, tag, counters, weight
         if missing or extra:
             fails.append((tag + 'candidate_set', {'missing': missing, 'extra': extra, 'population': list(pop)}))
             return
+    direct = getattr(pop, 'direct', None)
+    if direct is not None:
+        # one categorical draw instead of propose/accept: its probabilities must be weight/sum (1/n when unweighted)
+        counters['direct_draws_checked'] = counters.get('direct_draws_checked', 0) + 1
+        sw = sum((expected[c] if weighted else 1.0) for c in pop)
+        for c in pop:
+            want = ((expected[c] if weighted else 1.0) / sw) if sw > 0 else None
+            if want is None or not close(direct[c], want, 1e-9, 1e-12):
+                fails.append((tag + 'accept_threshold', {'why': 'direct draw not proportional to weight', 'candidate': c, 'P_drawn': direct[c], 'weight_over_sum': want}))
+                return
+        return
     if not weighted:
         return
     Ms = []
@@ -265,7 +291,7 @@ def e2_fast_sir(G, tau, gamma, tw, rw, I0, R0, tmin, tmax, log, sim, fails, coun
             if rr > 0:
                 e = cur.next('expo')
                 counters['rate_params_checked'] = counters.get('rate_params_checked', 0) + 1
-                if not close(e[1], rr):
+                if not close(e[1], rr, 1e-9, 0):
                     fails.append(('recovery_rate', {'node': v, 'used': e[1], 'chain': rr}))
                     return
                 d = e[2]
@@ -277,7 +303,7 @@ def e2_fast_sir(G, tau, gamma, tw, rw, I0, R0, tmin, tmax, log, sim, fails, coun
                 if r > 0:
                     e = cur.next('expo')
                     counters['rate_params_checked'] = counters.get('rate_params_checked', 0) + 1
-                    if not close(e[1], r):
+                    if not close(e[1], r, 1e-9, 0):
                         fails.append(('transmission_rate', {'edge': (v, x), 'used': e[1], 'chain': r}))
                         return
                     delays[(v, x)] = e[2]
@@ -290,14 +316,14 @@ def e2_fast_sir(G, tau, gamma, tw, rw, I0, R0, tmin, tmax, log, sim, fails, coun
             for x in susn:
                 e = cur.next('expo')
                 counters['rate_params_checked'] = counters.get('rate_params_checked', 0) + 1
-                if not close(e[1], tau):
+                if not close(e[1], tau, 1e-9, 0):
                     fails.append(('transmission_rate', {'edge': (v, x), 'used': e[1], 'chain': tau}))
                     return
                 delays[(v, x)] = e[2]
         else:
             e = cur.next('expo')
             counters['rate_params_checked'] = counters.get('rate_params_checked', 0) + 1
-            if not close(e[1], rr):
+            if not close(e[1], rr, 1e-9, 0):
                 fails.append(('recovery_rate', {'node': v, 'used': e[1], 'chain': rr}))
                 return
             d = e[2]
@@ -315,7 +341,7 @@ def e2_fast_sir(G, tau, gamma, tw, rw, I0, R0, tmin, tmax, log, sim, fails, coun
             for x in s[3]:
                 e = cur.next('expo')
                 counters['rate_params_checked'] = counters.get('rate_params_checked', 0) + 1
-                if not close(e[1], tau):
+                if not close(e[1], tau, 1e-9, 0):
                     fails.append(('transmission_rate', {'edge': (v, x), 'used': e[1], 'chain': tau}))
                     return
                 delays[(v, x)] = None   # folded value unknown a priori: must lie in [0, d) and equal e[2] modulo d
@@ -445,7 +471,7 @@ def e2_fast_sis(G, tau, gamma, tw, rw, I0, tmin, tmax, log, sim, fails, counters
             return False
         cur.next('expo')
         bumpc('rate_params_checked')
-        if not close(e[1], rate):
+        if not close(e[1], rate, 1e-9, 0):
             fails.append(('transmission_rate', {'pair': (u, v), 'used': e[1], 'chain': rate}))
             return False
         T = now + e[2]
@@ -462,7 +488,7 @@ def e2_fast_sis(G, tau, gamma, tw, rw, I0, tmin, tmax, log, sim, fails, counters
                     return is_add and close(nxt[1], Tc, 1e-12, 0)
                 return not is_add
             e2 = cur.peek()
-            if e2 is not None and e2[0] == 'expo' and close(e2[1], rate) and consistent(R[v] + e2[2], 1):
+            if e2 is not None and e2[0] == 'expo' and close(e2[1], rate, 1e-9, 0) and consistent(R[v] + e2[2], 1):
                 cur.next('expo')
                 bumpc('rate_params_checked')
                 bumpc('sis_redraws_seen')
@@ -534,7 +560,7 @@ def e2_fast_sis(G, tau, gamma, tw, rw, I0, tmin, tmax, log, sim, fails, counters
                     return
                 cur.next('expo')
                 bumpc('rate_params_checked')
-                if not close(e1[1], rr):
+                if not close(e1[1], rr, 1e-9, 0):
                     fails.append(('recovery_rate', {'node': tgt, 'used': e1[1], 'chain': rr}))
                     return
                 R[tgt] = t + e1[2]
